@@ -13,7 +13,7 @@ SPECS = [
                "infos[idx].get('TimeLimit.truncated', False)": "timelimit"},
     ),
     dict(
-        name="onp_boot_reward", qual=_Q, start=r"^rewards\[idx\] \+?= ", end=None,
+        name="onp_boot_reward", qual=_Q, start=r"^rewards\[idx\] \S?= ", end=None,
         inputs=[("reward", "Q"), ("gamma", "Q"), ("terminal_value", "Q")],
         subst={"rewards[idx]": "reward", "self.gamma": "gamma"}, outputs=[("reward", "Q")],
     ),
@@ -22,7 +22,7 @@ SPECS = [
         inputs=[("n_steps", "Z"), ("n_rollout_steps", "Z")],
     ),
     dict(
-        name="onp_sde_guard", qual=_Q, start=r"^if self\.use_sde and self\.sde_sample_freq\b", end=None, kind="test",
+        name="onp_sde_guard", qual=_Q, start=r"^if .*self\.sde_sample_freq\b", end=None, kind="test",
         inputs=[("use_sde", "bool"), ("sde_sample_freq", "Z"), ("n_steps", "Z")],
         subst={"self.use_sde": "use_sde", "self.sde_sample_freq": "sde_sample_freq"},
     ),
